@@ -124,7 +124,7 @@ def run(eng, rep, tier):
     from .flow import _path_to
     def guarded(y):
         tests = " and ".join(ast.unparse(a.test) for a in _path_to(ft.node, y) if isinstance(a, ast.If))
-        return "len(remaining) == 0" in tests and "_final_states" in tests
+        return ("== 0" in tests or "not " in tests) and "final" in tests
     ob.decide("R1", "C16.3", ft, "yield-iff-consumed-and-final", bool(ys) and all(guarded(y) for y in ys),
               "an output is yielded only with empty remainder in a final state",
               "translate yields without requiring (empty remainder and final state)", None, site=site_of(prog, ft, ft.node))
